@@ -114,7 +114,7 @@ theorem rSeekLoop_found (hP1 : entryLimit ≤ P.maxEntry) (g : GlobalCtx tsOf ds
     intro r hji hile hlen
     by_cases hij : i = j
     · subst hij
-      obtain ⟨dd, hseek⟩ := seekTS_found P tsOf target d.lines hP1 (g.file tsOf ds d hdm) (g.small d hdm) k hk hts
+      obtain ⟨dd, _, hseek⟩ := seekTS_found P tsOf target d.lines hP1 (g.file tsOf ds d hdm) (g.small d hdm) k hk hts
         (r.files.getD i {})
       refine ⟨{ files := r.files.set i { (r.files.getD i {}) with
           hasBuf := false, position := (render (d.lines.take (k + 1))).length - 1 }, curN := i + 1 },
